@@ -733,8 +733,7 @@ def oracle(case, impl, model, crash):
         if l.startswith("f"):
             if impl[i] != "ok":
                 return True, ("numeric clause violated (float/double result against the long double reference; bound 64*eps for "
-                              "quaternion/matrix/axis-angle conversions and for Euler angles of a matrix composed with the same axis "
-                              "order, 16*eps/cos(middle) for Euler angles of other matrices, c*eps*cond for inverse/solve): " + impl[i])
+                              "every rotation conversion incl. Euler angles at any distance from gimbal lock, c*eps*cond for inverse/solve): " + impl[i])
             continue
         exp = reference(l)
         if exp is not None and impl[i] != exp:
@@ -812,10 +811,10 @@ LEVEL_NOTE = ("Trusted: Lean kernel; the expression translator tools/props/c20_t
               "rotation_matrix_full (matrix(rotation M) = M for EVERY proper rotation matrix M) is only stated: it needs surjectivity of "
               "q -> matrix q onto SO(3); proved is rotation_matrix_partial (M in the image). The axis-angle and Euler theorems assume "
               "TrigOK/TrigAA/TrigDouble/CmpStd for cos/sin/asin/acos/atan2/sqrt (proved for the real functions in examples); "
-              "the behaviour of eulerAngles() when the cosine (sine) c of the middle angle is in (0, lim] (there the degenerate branch is an "
-              "approximation with error <= c <= lim = 16 eps); numeric tolerances: 64*eps for quaternion<->matrix<->axis-angle at every "
-              "angle (incl. 10^-k) and for Euler angles of a matrix built by rotateE with the same order at every distance from the "
-              "lock (incl. lock +- 10^-k), 16*eps/c for Euler angles of matrices with absolute noise (from quaternions). The Euler "
+              "the behaviour of eulerAngles() when the cosine (sine) c of the middle angle is in (0, lim] (there the last angle is set to 0, "
+              "an approximation with error <= c <= lim = 16 eps); numeric tolerance: 64*eps for every rotation conversion "
+              "(quaternion, matrix, axis-angle at every angle incl. 10^-k; Euler angles of rotateE-built and of quaternion-built "
+              "matrices at every distance from the lock incl. lock +- 10^-k). The Euler "
               "theorems are about exact arithmetic with abstract trigonometric functions; the branch threshold lim is a parameter (>= 0). "
               "The Euler/rotate definitions are tied to the source by the translator only (they are not executed by the model driver: no "
               "exact trigonometry exists over the prime field); the real eulerAngles()/rotateE() are exercised numerically. "
@@ -824,4 +823,5 @@ LEVEL_NOTE = ("Trusted: Lean kernel; the expression translator tools/props/c20_t
               "/repo (fix: commits ddac4e2 Matrix3 operator*, 59184ad eulerAngles near gimbal lock); two more reported by an independent hunt "
               "and fixed (f6f3b25 angle()/axisAngle() lost small rotations, 3b6cfb4 eulerAngles locked formulas used up to 1e-3 rad from "
               "the lock -- the latter introduced by the threshold of 59184ad, which the then 8*sqrt(eps) tolerance of this check "
-              "accepted); witnesses in corpus/C20.")
+              "accepted; 635f2db eulerAngles amplified element noise by 1/cos(middle angle) near the lock, which the then eps*cond "
+              "tolerance accepted although rotation -> angles -> rotation is well-conditioned); witnesses in corpus/C20.")
